@@ -136,10 +136,13 @@ def run(tier, seed):
         runs.append(("bfs", ["--mode", "bfs", "--depth", 3, "--maxnodes", 3] + avoid))
     else:
         # one driver run per configuration keeps every trace file small enough for the validator
+        # length 5 complete for every configuration; length 6 complete for one undirected configuration
+        # (edge objects, allocated indices) and capped for one directed configuration (reported as truncated)
         for c in cfgs:
-            runs.append(("bfs-" + c, ["--mode", "bfs", "--depth", 5, "--maxnodes", 4, "--cfg", c] + avoid))
-        for c in ("de1", "ue2"):
-            runs.append(("bfs6-" + c, ["--mode", "bfs", "--depth", 6, "--maxnodes", 4, "--cfg", c, "--cap", 25000] + avoid))
+            if c != "ue2":
+                runs.append(("bfs-" + c, ["--mode", "bfs", "--depth", 5, "--maxnodes", 4, "--cfg", c] + avoid))
+        runs.append(("bfs6-ue2", ["--mode", "bfs", "--depth", 6, "--maxnodes", 4, "--cfg", "ue2"] + avoid))
+        runs.append(("bfs6-de1", ["--mode", "bfs", "--depth", 6, "--maxnodes", 4, "--cfg", "de1", "--cap", 25000] + avoid))
     for k in known:
         runs.append(("probe-" + k, ["--mode", "probe", "--name", k]))
     bfs_sum = {"states": 0, "transitions": 0, "truncated": [], "per_cfg": []}
